@@ -6,7 +6,7 @@ from . import core, s4u
 from .platgen import Plat
 
 DRIVER = "s4u_model"
-EXT_VERSION = "model-ext-v4"     # must match drivers/s4u_ext_model.hpp: a stale binary is a harness error, not a verdict
+EXT_VERSION = "model-ext-v5"     # must match drivers/s4u_ext_model.hpp: a stale binary is a harness error, not a verdict
 PREC_T = 1e-9                    # precision/timing (default), Configuring_SimGrid.rst "Numerical Precision"
 PREC_W = 1e-5                    # precision/work-amount (default)
 T = s4u.T
